@@ -132,7 +132,7 @@ class Report:
     # -- finishing --------------------------------------------------------
     # rules that identify nothing by a local's, parameter's or member's name: what they report stands even when another rule's
     # name anchor has gone (the other rules' reports are dropped in that case -- they may have misread the code)
-    NAME_FREE = {"PARAM", "RETVAL", "CTOR", "DTOR", "INV-queue", "INV-map", "BORROW", "R2-amounts", "K10-encap", "W8-borrow", "DOUBLE-FREE", "REALLOC-nonzero", "LEAK", "NULLCHK", "REPORTED", "J6-eof", "UNINIT", "RESULT-TEST", "MASKWIDTH", "FAILPATH", "DRAIN", "ALLOCSIZE", "ASSERT-effect", "IMALLOC-zero", "VALIST", "WIPED-READ", "DROPPED", "ATOMIC-static", "REALLOC", "O5-map", "O8-capacity"}
+    NAME_FREE = {"PARAM", "RETVAL", "CTOR", "DTOR", "INV-queue", "INV-map", "BORROW", "R2-amounts", "K10-encap", "W8-borrow", "DOUBLE-FREE", "REALLOC-nonzero", "LEAK", "NULLCHK", "REPORTED", "J6-eof", "UNINIT", "RESULT-TEST", "MASKWIDTH", "FAILPATH", "DRAIN", "ALLOCSIZE", "ASSERT-effect", "IMALLOC-zero", "VALIST", "WIPED-READ", "DROPPED", "ERRNO-FRESH", "ATOMIC-static", "REALLOC", "O5-map", "O8-capacity"}
 
     def finish(self):
         if getattr(self, "deferred", None) and (not self.viol or getattr(self, "renamed", 0)):
